@@ -20,7 +20,7 @@ from pathlib import Path
 from typing import Any, Callable, Optional
 
 VERIF = Path(os.environ.get('VERIF_HOME', Path(__file__).resolve().parent.parent))
-REPO = Path('/repo')
+REPO = Path(os.environ.get('VERIF_REPO', '/repo'))
 COQ = VERIF / 'coq'
 THEORIES = COQ / 'theories'
 GEN = THEORIES / 'Gen'
